@@ -411,6 +411,13 @@ class Twin:
         self.fullhist = bool(prog.get("flags", {}).get("fullhist")) and not blind
         self.held = []  # arrays obtained from `volumes` after every event (they must stay snapshots)
 
+    def _drop_defaults(self, pres, given, defaults):
+        """Every third call leaves out the keyword arguments whose value is the documented default (callers rarely spell them)."""
+        self.ncalls = getattr(self, "ncalls", 0) + 1
+        if not pres.get("omit", self.ncalls % 3 == 1):
+            return given
+        return {k: v for k, v in given.items() if not (type(v) is type(defaults[k]) and v == defaults[k])}
+
     def close(self):
         if self.tmp:
             shutil.rmtree(self.tmp, ignore_errors=True)
@@ -641,9 +648,8 @@ class Twin:
                     dst,
                     shape_wells(op["dw"], pres.get("dwells", wp)),
                     shape_vols(op["vols"], unit, vp, nk),
-                    label=oplabel,
-                    wash_scheme=wash,
-                    partition_by=op.get("pby", "auto"),
+                    **self._drop_defaults(pres, {"label": oplabel, "wash_scheme": wash, "partition_by": op.get("pby", "auto")},
+                                          {"label": None, "wash_scheme": 1, "partition_by": "auto"}),
                     **kw,
                 )
             elif name == "distribute":
@@ -671,15 +677,13 @@ class Twin:
                     dst,
                     shape_wells(op["dw"], wp),
                     volume=shape_vols({"k": "s", "x": op["vol"]}, unit, "list", nk),
-                    diti_reuse=op.get("reuse", 1),
-                    multi_disp=op.get("md", 1),
-                    liquid_class=texts["lc"],
-                    label=lab,
-                    direction=op.get("dir", "left_to_right"),
-                    src_rack_id=texts["sid"],
-                    src_rack_type=texts["stype"],
-                    dst_rack_id=texts["did"],
-                    dst_rack_type=texts["dtype"],
+                    **self._drop_defaults(
+                        pres,
+                        {"diti_reuse": op.get("reuse", 1), "multi_disp": op.get("md", 1), "liquid_class": texts["lc"], "label": lab,
+                         "direction": op.get("dir", "left_to_right"), "src_rack_id": texts["sid"], "src_rack_type": texts["stype"],
+                         "dst_rack_id": texts["did"], "dst_rack_type": texts["dtype"]},
+                        {"diti_reuse": 1, "multi_disp": 1, "liquid_class": "", "label": "", "direction": "left_to_right", "src_rack_id": "",
+                         "src_rack_type": "", "dst_rack_id": "", "dst_rack_type": ""}),
                 )
             elif name in ("save", "exit", "enter", "str", "clear", "listedit"):
                 return self._file_op(op)
